@@ -628,6 +628,7 @@ Section Protocol.
     match e with
     | EAppend r => snd (app r (replay l)) = true /\ 0 < blen r /\ okrec r
     | EShrink l' => upd_ok l' /\ oklog l'
+    | EFollow l' => upd_ok l' /\ oklog l'     (* the other leader's log is a log *)
     | EOwn _ => False      (* convergence is stated for traces without follower-side expiry *)
     | _ => True
     end.
@@ -667,6 +668,7 @@ Section Protocol.
       rewrite Hl. now rewrite app_assoc.
     - (* shrink *) destruct Hok as [Hu Hw]. split; [exact Hu|split; [exact Hw|split; [exact Hwf|now left]]].
     - (* own append: excluded by ev_ok *) contradiction.
+    - (* re-pointed to another leader *) destruct Hok as [Hu Hw]. split; [exact Hu|split; [exact Hw|split; [exact Hwf|now left]]].
   Qed.
 
   Lemma run_inv : forall es l f, ok_trace (l, f) es -> inv l f ->
@@ -765,6 +767,20 @@ Section Protocol.
   Lemma reconnecting_not_caught_up : forall md l f es,
     Forall handshake_event es -> f_cup (snd (run md (step md (l, f) EBegin) es)) = false.
   Proof. intros md l f es Hes. cbn [Follow.step]. apply reconnecting_flag; auto. Qed.
+
+  (* a leader AOFSHRINK, a FOLLOW that points to another leader, a dropped connection and a restart end the
+     running session in whatever phase it is (initial bulk copy or tailing), in every mode; the leader's log
+     the follower has to agree with from then on is the new one *)
+  Definition session_ending (e : event) : Prop :=
+    match e with EShrink _ | EFollow _ | EDrop | ERestart => True | _ => False end.
+
+  Lemma session_ends : forall md l f e, session_ending e ->
+    f_ses (snd (step md (l, f) e)) = None /\
+    (forall l', e = EShrink l' \/ e = EFollow l' -> fst (step md (l, f) e) = l').
+  Proof.
+    intros md l f e He. destruct e; cbn in He; try contradiction; cbn [Follow.step fst snd];
+      (split; [reflexivity|]); intros l2 [E|E]; inversion E; subst; reflexivity.
+  Qed.
 
   (* l1 = the leader's log when the follower (in ANY state) (re)connects; kept = what the follower keeps of
      its own log at that moment (a record prefix of l1, its dataset being the replay of it:
